@@ -63,6 +63,8 @@ def run(tier):
     rule_R8(res, prog)
     rule_R10(res, prog)
     rule_R11(res, prog, cg)
+    rule_R12(res, prog)
+    rule_R13(res, prog)
     from rules.C17 import rule_R1w
     rule_R1w(res, prog, prop=PROP, rid="C02.R9")
     return res.finish()
@@ -934,4 +936,94 @@ def rule_R11(res, prog, cg):
             f_ = Finding(PROP, rid, fn0.name, "traffic secrets of the two directions not separated (%s / %s)" % (of, peer),
                          "%s:%s %s(): %s" % (fn0.relfile, ln0, fn0.name, "; ".join(problems)), file=fn0.relfile, line=ln0)
         res.instance(rid, "%s %s / %s %s" % (of, sorted(cl), peer, sorted(sv)), not problems, finding=f_)
+    res.floor(rid, 2)
+
+
+def rule_R12(res, prog):
+    """'on TLS any modification of a protected record ends the session with a fatal alert' for TLS 1.3: the additional
+    authenticated data of the record protection is the record header AS RECEIVED (RFC 8446 5.2).  The receiver checks
+    neither the outer type (any of 20..23 passes) nor the legacy version, so only the AEAD binds them: every octet of the
+    decryption AAD is taken from the parsed header ssl->rec (type, version, length), none is a constant."""
+    from sa import cfgutil as cu
+    from sa.ir import walk
+    rid = "C02.R12"
+    res.rule(rid, "TLS 1.3: the decryption AAD is built from the received record header, octet by octet")
+    lst = prog.by_name.get("tls13MakeDecryptAad")
+    if not lst:
+        if prog.defined("USE_TLS_1_3"):
+            raise AnalysisBroken("C02.R12: tls13MakeDecryptAad vanished")
+        res.floor(rid, 0)
+        return
+    fn = lst[0]
+    want = {0: "rec.type", 1: "rec.majVer", 2: "rec.minVer", 3: "rec.len", 4: "rec.len"}
+    seen = {}
+    for b in fn.blocks:
+        for i, ln, x in cu.block_exprs(b):
+            for m in walk(x):
+                if m.get("k") == "bin" and m["op"] == "=" and (strip(m["l"]) or {}).get("k") == "idx":
+                    ix = strip(strip(m["l"]).get("i"))
+                    if ix is not None and ix.get("k") == "int":
+                        seen[ix["v"]] = (ln, cu.ftext(strip(m["r"])))
+    for k in sorted(want):
+        ln, txt = seen.get(k, (None, "<not stored>"))
+        ok = want[k] in txt
+        f_ = None
+        if not ok:
+            f_ = Finding(PROP, rid, fn.name, "AAD octet %d is not the received header octet" % k,
+                         "%s:%s tls13MakeDecryptAad(): aad[%d] = %s does not come from the parsed record header (ssl->%s): a record whose "
+                         "header was rewritten in transit (opaque_type 23 -> 22/21, another legacy_record_version) still deprotects and its "
+                         "content is delivered without an alert" % (fn.relfile, ln, k, txt, want[k]), file=fn.relfile, line=ln or 0)
+        res.instance(rid, "tls13MakeDecryptAad: aad[%d] from ssl->%s" % (k, want[k]), ok, finding=f_)
+    res.floor(rid, 5)
+
+
+def rule_R13(res, prog):
+    """'what the application is told came from the peer': on an established TLS 1.3 connection every record is protected.
+    The decoder's shortcut for PLAINTEXT alerts (a peer that has no write keys yet) is reached only through a test of the
+    handshake state, or else behind the record decryption: otherwise anybody on the path ends the connection with a forged
+    close_notify - an unauthenticated `clean` end of stream (truncation) - or a forged fatal alert."""
+    from sa import cfgutil as cu
+    from sa.ir import walk
+    rid = "C02.R13"
+    res.rule(rid, "TLS 1.3: an alert is handed to the application only behind record decryption or a test that the handshake is still in progress")
+    lst = prog.by_name.get("matrixSslDecodeTls13")
+    if not lst:
+        if prog.defined("USE_TLS_1_3"):
+            raise AnalysisBroken("C02.R13: matrixSslDecodeTls13 vanished")
+        res.floor(rid, 0)
+        return
+    fn = lst[0]
+    DONE = prog.const("SSL_HS_DONE")
+
+    def passes(x):
+        if "(ssl->hsState == %d)" % DONE in cu.ftext(x) or "(ssl->hsState != %d)" % DONE in cu.ftext(x):
+            return True
+        for m in walk(x):
+            if m.get("k") == "call" and not m.get("fn"):
+                fp = strip(m.get("fp"))
+                if fp is not None and fp.get("k") == "mem" and fp.get("f") == "decrypt":
+                    return True
+        return False
+    n = 0
+    for b, ln, c in fn.calls():
+        if c.get("fn") != "tls13ParseAndHandleAlert":
+            continue
+        n += 1
+        RS = prog.const("SSL_FLAGS_READ_SECURE")
+
+        def no_read_keys(bk, k, RS=RS):
+            # the edge on which no read keys are active: the connection is not established, a plaintext alert is the rule
+            t = bk.get("term")
+            if t is None or "c" not in t or len(bk["succ"]) != 2 or t.get("k") != "if":
+                return False
+            return any(txt == "((ssl->flags & %d) ? 1 : 0)" % RS and not tr for (txt, tr, nd) in cu._cond_atoms(t["c"], k == 0))
+        esc = cu.escapes(fn, (fn.entry, None), passes, exempt_edge=no_read_keys, target_expr=lambda x, c=c: any(m is c for m in walk(x)))
+        f_ = None
+        if esc is not None:
+            f_ = Finding(PROP, rid, fn.name, "unprotected alert honoured regardless of the handshake state",
+                         "%s:%s matrixSslDecodeTls13(): tls13ParseAndHandleAlert() is reached (via lines %s) without the record having been "
+                         "decrypted and without any test of ssl->hsState: `15 03 03 00 02 01 00` injected into an established connection "
+                         "makes matrixSslReceivedData report the peer's close_notify (silent truncation); `02 28` a fatal alert" % (
+                             fn.relfile, ln, [p_[1] for p_ in esc[-6:]]), file=fn.relfile, line=ln)
+        res.instance(rid, "matrixSslDecodeTls13:%s alert handling behind decryption or a handshake-state test" % ln, esc is None, finding=f_)
     res.floor(rid, 2)
